@@ -353,10 +353,56 @@ def run(ctx):
             ctx.violation("R06.1", "eval:%s" % name, m["sp"], "variant %s has no evaluator arm" % name)
     ctx.floor("R06.1", "evaluator arms", len(seen), 35)
     shortcircuit(ctx, f, ix, defs, stacks, todo_id)
+    store_slots(ctx)
     if ctx.facts.has_crate("baa"):
         baa_siblings(ctx)
     else:
         ctx.skipped("R06.4: no facts for crate baa in this run")
+
+
+def store_slots(ctx):
+    """R06.5: the word store of SymbolValueStore is written a whole value at a time"""
+    ctx.rule("R06.5", "SymbolValueStore keeps bit-vector values as runs of words: every write goes through a whole-value operation (extend_from_slice(value.words()), get_mut_ref(index).assign(value), "
+                      "copy_from_slice(value.words())); a write of a single word by index is allowed only under a test of the value's width / word count (otherwise the upper words of a wider slot keep a stale value)")
+    c = ctx.facts.lib("patronus")
+    WHOLE = ("extend_from_slice", "get_ref", "get_mut_ref", "len", "clear", "is_empty", "extend", "reserve", "capacity", "iter", "clone", "as_slice")
+    n_uses = 0
+    for path, fl in sorted(c.fns.items()):
+        if "SymbolValueStore" not in path or "::tests::" in path:
+            continue
+        for f in fl:
+            ix = Index(f["body"])
+            per = 0
+            for n in ix.nodes:
+                if not (n.get("k") == "field" and n["name"] == "bit_vec_words" and peel(n["e"]).get("k") == "local" and peel(n["e"]).get("name") == "self"):
+                    continue
+                n_uses += 1
+                par = ix.parent.get(id(n))
+                while par is not None and par.get("k") in ("ref", "deref", "paren"):
+                    par = ix.parent.get(id(par))
+                if par is not None and par.get("k") == "mcall" and contains(par["recv"], n) and not any(contains(a_, n) for a_ in par.get("args", [])):
+                    if par["name"] in WHOLE:
+                        continue
+                    ctx.not_analysed.append("R06.5: %s uses the word store through `%s`" % (path, par["name"]))
+                    continue
+                if par is not None and par.get("k") == "index" and contains(par["e"], n):
+                    # a word (or a range of words) addressed directly: a write?
+                    top = par
+                    up = ix.parent.get(id(top))
+                    while up is not None and up.get("k") in ("ref", "deref", "paren"):
+                        top, up = up, ix.parent.get(id(up))
+                    is_write = up is not None and ((up.get("k") in ("assign", "assignop") and contains(up["l"], n)) or (up.get("k") == "mcall" and up["name"] in ("copy_from_slice", "fill", "clone_from_slice", "swap") and contains(up["recv"], n)))
+                    if not is_write:
+                        continue
+                    per += 1
+                    whole = up.get("k") == "mcall" and up["name"] in ("copy_from_slice", "clone_from_slice") and any(x.get("k") == "mcall" and x["name"] == "words" for a_ in up["args"] for x in walk(a_))
+                    guarded = False
+                    for cnd, pol in norm_.path_conditions(ix, up):
+                        if any(x.get("k") == "mcall" and x["name"] in ("width", "words") for x in walk(cnd)):
+                            guarded = True
+                    ctx.inst("R06.5", "%s:word-write#%d" % (path.split("::")[-1], per), whole or guarded, up.get("sp"),
+                             "%s writes `%s` - a single word of the slot - without a test of the value's width: for a symbol wider than one word the other words keep the previous value" % (path, show(up)[:90]))
+    ctx.floor("R06.5", "uses of SymbolValueStore.bit_vec_words", n_uses, 4)
 
 
 def fmt(t):
